@@ -144,10 +144,19 @@ def check_library(chk, only=None) -> None:
         # the edit reaches the written document
         attrs = astq.first_assign(fi.node, "attributes")
         rows_loop = [l for l in fi.node.body if isinstance(l, ast.For)]
-        alias = attrs is not None and norm(attrs) == "category_obj.getAttributeList()" and len(rows_loop) == 1 and norm(rows_loop[0].iter) == "category_obj.getRowList()"
+        # the accessors hand out the category's own lists; a copying constructor around one of them makes the edit private
+        accessors = {a: [c for c in ast.walk(fi.node) if isinstance(c, ast.Call) and isinstance(c.func, ast.Attribute) and c.func.attr == a] for a in ("getAttributeList", "getRowList")}
+        copied = [c for c in ast.walk(fi.node) if isinstance(c, ast.Call) and c.args and isinstance(c.args[0], ast.Call) and isinstance(c.args[0].func, ast.Attribute) and c.args[0].func.attr in accessors and norm(c.func).split(".")[-1] in ("list", "tuple", "sorted", "copy", "deepcopy")]
+        copied += [c for c in ast.walk(fi.node) if isinstance(c, ast.Subscript) and isinstance(c.slice, ast.Slice) and isinstance(c.value, ast.Call) and isinstance(c.value.func, ast.Attribute) and c.value.func.attr in accessors]
         repl = [c for c in astq.calls(fi.node, "DataCategory")]
         effective = any(c.args and norm(c.args[0]) == "category" for c in repl)
-        chk.expect(alias or effective, "edit-reaches-output", fi.where, "rows and attributes are the category's own lists (edited in place), so the written document contains the edit", "the edit is made on private copies and the category is 'replaced' by DataCategory(<object>, ...), which does not install it: the written document lacks the edit (e.g. a new target item)", K(fi, "in-place"), found=[norm(attrs) if attrs is not None else None] + [norm(c)[:60] for c in repl])
+        found = [norm(attrs) if attrs is not None else None] + [norm(c)[:60] for c in repl]
+        if effective or (not copied and all(accessors.values())):
+            chk.ok("edit-reaches-output", fi.where, "rows and attributes are the category's own lists (edited in place), so the written document contains the edit")
+        elif copied:
+            chk.violation("edit-reaches-output", fi.site(copied[0]), f"`{norm(copied[0])[:70]}` is a private copy of the category's list and the category is 'replaced' by DataCategory(<object>, ...), which does not install it: the written document lacks the edit (e.g. a new target item)", K(fi, "in-place"), found=found)
+        else:
+            chk.error("edit-reaches-output", fi.where, "how the rows / attributes of the category are reached is not recognised (no getAttributeList() / getRowList() accessor)")
         wr = [c for c in astq.calls(fi.node, "writeFile")]
         rets = [r for r in astq.walk_no_nested(fi.node) if isinstance(r, ast.Return) and r.lineno > first_store]
         want_ret = "(f.read(), mapping)" if is_replace else "f.read()"
@@ -292,13 +301,13 @@ def run(chk) -> None:
     )
     chk.trusted = ["CPython ast", "mmcif IoAdapterPy re-serialises untouched categories faithfully", "the stub model of mmcif DataCategory / DataContainer / IoAdapterPy in checks/c20e.py follows the library's documented behaviour"]
     chk.assumptions = ["values has enough symbols for the distinct values (an exception otherwise is the caller's contract; a normal return must still be a total injective substitution)", "only the first data block is edited (the rules use no document where the category also occurs in a later block)"]
-    chk.robust |= {"cli-path-args", "cli-content", "cli-writes-str", "cli-wiring", "edit-eval", "memo-mutable", "cli-open-order-evidence", "early-exit-eval", "mapping-total", "repeat-eval", "default-alphabet", "cli-eval", "cli-inplace-eval"}
+    chk.robust |= {"cli-path-args", "cli-content", "cli-writes-str", "cli-wiring", "edit-eval", "memo-mutable", "cli-open-order-evidence", "edit-reaches-output", "early-exit-eval", "mapping-total", "repeat-eval", "default-alphabet", "cli-eval", "cli-inplace-eval"}
     chk.superseded.update({"row-stores": "edit-eval", "new-item": "edit-eval"})
     repo = chk.repo
     check_cli_args(chk)
     fi = repo.func(M, "main")
     chk.note_function(fi)
-    why = _fact_level(chk, c20e.check_cli, fi)
+    why = cli_why = _fact_level(chk, c20e.check_cli, fi)
     if why is None:
         for rule, n in (("cli-eval", 10), ("cli-inplace-eval", 10)):
             chk.floor(rule, n)
@@ -319,7 +328,7 @@ def run(chk) -> None:
         check_library(chk, fallback)
         check_library_eval(chk, fallback)
     else:
-        for rule, n in (("early-exit-eval", 8), ("edit-eval", 12), ("mapping-total", 3), ("repeat-eval", 2), ("eval-coverage", 3)):
+        for rule, n in (("early-exit-eval", 8), ("edit-eval", 12), ("mapping-total", 3), ("repeat-eval", 2), ("eval-coverage", 3 if cli_why is None else 2)):
             chk.floor(rule, n)
     check_memo(chk)
 
